@@ -280,7 +280,7 @@ def rule_write(ctx):
                 continue
             bad = True
             ctx.violated("C05.WRITE", fi.short, f"writes the router's '{target.attr}' table ({how}) outside the router's registration functions", node=node, fi=fi)
-    ctx.floor("C05.WRITE", "table writes", n, 7)
+    ctx.floor("C05.WRITE", "table writes", n, 3)
     if not bad:
         ctx.holds("C05.WRITE", rc.short, f"{n} writes of clients/devices/blob_routing, all inside {sorted(allowed)}", ci=rc)
 
